@@ -66,7 +66,7 @@ impl<T: Bounded> BVH<T> {
 
     /// Construye una BVH de forma iterativa a partir de un vector de elementos
     pub fn build(elements: Vec<T>, max_num_elements: usize) -> Self {
-        let node_list = BVH::generate_node_list(elements, max_num_elements);
+        let node_list = BVH::generate_node_list(elements, max_num_elements.max(1));
         BVH::build_from_node_list(node_list)
     }
 
@@ -81,7 +81,7 @@ impl<T: Bounded> BVH<T> {
         let expected_num_nodes = if elements.is_empty() {
             1
         } else {
-            2 * (elements.len() / max_num_elements.max(1)) + 1
+            2 * (elements.len() / max_num_elements) + 1
         };
         let mut node_list: Vec<TreeElement<T>> = Vec::with_capacity(expected_num_nodes);
 
@@ -192,6 +192,17 @@ impl<T: Bounded> BVH<T> {
 
     /// Divide lista de elementos en dos partes usando el centroide en el eje más largo como plano divisor
     fn partition_elements_by_centroid(elements: Vec<T>) -> (Vec<T>, Vec<T>) {
+        let (mut left, mut right) = BVH::partition_elements_by_mean_centroid(elements);
+        // Si la partición no separa elementos (centroides coincidentes) dividimos por la mitad
+        if left.is_empty() || right.is_empty() {
+            left.append(&mut right);
+            right = left.split_off(left.len() / 2);
+        }
+        (left, right)
+    }
+
+    /// Divide elementos según su posición respecto al centroide medio en la dimensión mayor
+    fn partition_elements_by_mean_centroid(elements: Vec<T>) -> (Vec<T>, Vec<T>) {
         let aabb = elements.aabb();
         let dim = aabb.max.coords - aabb.min.coords;
         let len = elements.len() as f32;
